@@ -127,6 +127,7 @@ type CrossQuery struct {
 }
 
 type Explorer struct {
+	pushes int // alternatives queued so far (fork profile)
 	L        *Loaded
 	Fn       *ssa.Function
 	Params   map[string]int
@@ -154,6 +155,7 @@ type Explorer struct {
 func (ex *Explorer) push(p []Decision) {
 	ex.mu.Lock()
 	ex.stack = append(ex.stack, p)
+	ex.pushes++
 	ex.mu.Unlock()
 	ex.cond.Signal()
 }
@@ -501,6 +503,9 @@ func (in *Interp) choice(n int, what string) int {
 			in.tapeAdd(TapeEntry{Kind: "choice", Vals: []uint64{uint64(d.V)}, Note: what})
 		}
 		return int(d.V)
+	}
+	if forkProfile != nil {
+		noteFork(fmt.Sprintf("choice(%d) %s in %s", n, what, in.curFn()))
 	}
 	for k := n - 1; k >= 1; k-- {
 		alt := append(append([]Decision(nil), p.dec...), Decision{V: int32(k)})
